@@ -82,6 +82,8 @@ def equiv(op, il, mres):
     if il == mres:
         return True
     kind = op.split(" ", 2)[1]
+    if _lenient["v"] and il.startswith("err ") and mres.startswith("err ") and " A=1" not in il and " A=1" not in mres:
+        return True
     if mres.startswith("err pgp?") and il.startswith("err "):
         # the signature blob of this (malformed) file is not in the op's packet table: the model only knows that the OpenPGP
         # reader is asked about a blob nobody tabulated; any refusal agrees with it
@@ -327,8 +329,14 @@ def matches_known(k, op, il, mres, tag):
     return False
 
 
+_lenient = {"v": False}
+
+
 def second(ctx, prop, cov, findings, known):
     import composite
+    # C11 judges panics, hangs and allocations; WHICH refusal a malformed package gets (e.g. unknown key before bad signature)
+    # is compared under C01 / C02, where the packages are well-formed
+    _lenient["v"] = prop == "C11"
     return composite.second(ctx, prop, prop + "RPM", ["rpm"], cov, findings, known,
                             "Relic.Props.%s (fragment %s_Rpm.lean: model Relic.Model.Rpm vs signers/rpm + go-rpmutils in-process)" % (prop, prop),
                             parallel=8)
